@@ -6,8 +6,10 @@ deterministic vtproto encoding of `protocol.FilterNode`).  Core Lean only.
 A `Node` is the Go struct `protocol.FilterNode` (strings are byte strings; `Nodes` is a slice of
 pointers, which may contain nil pointers).  Go facts mirrored here:
 * `Match` looks the key up once (`val, ok := tags[f.Key]`; `val = ""` when absent);
-  `eq/sw/ew/ct` and the numeric operators test `ok`, `neq/nex` test `!ok`, **`in`/`nin` do not
-  look at `ok`** (`slices.Contains(f.Vals, val)` with `val = ""` for an absent key);
+  `eq/sw/ew/ct`, `in` and the numeric operators test `ok`, `neq/nin/nex` test `!ok`
+  (since /repo commit "fix: tags filter in/nin treat a missing key as having no value"; before
+  it `in`/`nin` did not look at `ok` — `slices.Contains(f.Vals, val)` with `val = ""` for an
+  absent key — which is the variant `fix = false` below, kept for the record of finding C15-1);
   numeric operators return false when either numeral is rejected by `udecimal.Parse`;
   `and`/`or` evaluate children left to right and stop early; an unknown `Cmp`/`Op` and a `not`
   with ≠ 1 children are errors; dereferencing a nil child panics;
@@ -72,8 +74,8 @@ def numCmp (cmp : Str) (v c : Dec) : Bool :=
   else if cmp = cLt then Decimal.cmp v c < 0
   else Decimal.cmp v c ≤ 0
 
-/-- the leaf case of `Match`.  `fix = false` is the code as it is; `fix = true` is the variant
-in which `in`/`nin` honour `ok` (`ok && contains`, `!ok || !contains`). -/
+/-- the leaf case of `Match`.  `fix = true` is the code as it is (`in`/`nin` honour `ok`:
+`ok && contains`, `!ok || !contains`); `fix = false` is the code before the fix of C15-1. -/
 def matchLeaf (fix : Bool) (t : Tags) (key cmp val : Str) (vals : List Str) : MRes :=
   let r := t.lookup key
   let ok := r.isSome
@@ -128,8 +130,8 @@ def matchAny (fix : Bool) (t : Tags) : Nodes → MRes
     | r => r
 end
 
-/-- THE ONE LINE to flip when `Match` is changed upstream so that `in`/`nin` honour `ok`. -/
-def fixApplied : Bool := false
+/-- Which variant `/repo` has (flipped to `true` together with the `fix:` commit for C15-1). -/
+def fixApplied : Bool := true
 
 /-- `filter.Match` of the current code -/
 def Match (t : Tags) (n : Node) : MRes := matchN fixApplied t n
